@@ -17,9 +17,13 @@
    an explicit fairness hypothesis ([serves]); ADMISSIONS (every admission goes
    back to a pick; no overtaking, on traces); no early time-out; counter bound
    under the exact side condition; model vs suites vs code granularity; the full
-   property and the refutations for the trees lacking a fix. *)
+   property and the refutations for the trees lacking a fix; SCHEDULING OF THE
+   TTL WATCHER (Sched.v: the model with a clock and the watcher's timer
+   nextExpireAt; "no later than TTL plus slack" with the slack explicit, under an
+   explicit fairness hypothesis on the TTL goroutine; refuted for the variant of
+   the recalculation that skips entries already past their expiry). *)
 From Coq Require Import List ZArith Bool Lia.
-From Verif Require Import C06.Model C06.Proofs C06.Liveness C06.Bridge.
+From Verif Require Import C06.Model C06.Proofs C06.Liveness C06.Bridge C06.Sched C06.SchedProofs.
 Import ListNotations.
 Open Scope Z_scope.
 
@@ -788,3 +792,175 @@ Proof.
   cbn zeta in H. destruct H as (H & _). specialize (H 1). vm_compute in H. apply H. reflexivity.
 Qed.
 Print Assumptions C06_full_refuted_as_found.
+
+(* ================================================================ SCHEDULING OF THE TTL WATCHER
+
+   Sched.v: the untimed state plus a clock [clk] and the watcher's timer [nea]
+   (nextExpireAt, computed as the code computes it: NewRequestsWatcher, and
+   recalculateNextExpireAt at the end of every scan; a registration does not
+   touch it).  Timed schedules = lists of [TAdv d] (time passes), [TWake] (the
+   TTL goroutine's timer is consulted: due iff nea <= clk, then scan +
+   recalculation) and [TAct a] (any untimed action, reading the clock where it
+   reads one).  Ghosts: [regat r] = clock when r was registered, [lastwake] =
+   clock of the watcher's last scan, [wheld] = what the loop held at that scan.
+   [skip] = false is the code as it is; true is the recalculation that leaves out
+   the entries whose expireAt is already in the past. *)
+
+(* Nothing new can happen to the untimed state: every state of a timed schedule
+   is the state of an untimed schedule, so every theorem above speaks about it. *)
+Theorem C06_timed_states_are_untimed_states : forall skip c sch,
+  exists bs, base (trun skip c (tinit c) sch) = run c init bs.
+Proof. intros skip c sch. apply (reach_trun skip c sch (tinit c)), reach_init. Qed.
+Print Assumptions C06_timed_states_are_untimed_states.
+
+(* THE BOUND the code gives: whatever happened, the timer is set no later than
+   (registration instant + TTL) of every entry of the table — signalled or not,
+   expired or not — and the expiry of an entry is no later than that (it is
+   slot-check instant + TTL; the two coincide when no time passes between the
+   slot check and the registration).  Hence from registration + TTL on the
+   watcher is due. *)
+Theorem C06_timer_never_late : forall c sch r, 0 <= ttl c ->
+  let t := trun false c (tinit c) sch in
+  In r (watch (base t)) ->
+  nea t <= regat t r + ttl c /\
+     expire (info (base t) r) <= regat t r + ttl c /\ regat t r <= clk t /\ nea t <= clk t + ttl c.
+Proof. intros c sch r Ht. exact (timer_never_late c sch r Ht). Qed.
+Print Assumptions C06_timer_never_late.
+
+(* A registered request whose (registration + TTL) has passed and which the loop
+   does not hold is signalled at the next wake-up — and that wake-up is enabled
+   now (the timer is due); the signal stays for ever. *)
+Theorem C06_due_wake_signals : forall c sch r post, 0 <= ttl c ->
+  let t := trun false c (tinit c) sch in
+  In r (watch (base t)) -> regat t r + ttl c < clk t -> held (base t) <> Some r ->
+  due t = true /\ 1 <= dones (info (base (trun false c t (TWake :: post))) r).
+Proof. intros c sch r post Ht. exact (due_wake_signals c sch r post Ht). Qed.
+Print Assumptions C06_due_wake_signals.
+
+(* "One verdict no later than TTL plus slack", the slack explicit.  FAIRNESS
+   ([wfair dl], decidable): the TTL goroutine wakes whenever enabled, with
+   latency at most dl — the clock never passes more than dl beyond the later of
+   the timer instant and the watcher's last scan.  Then, in every state of every
+   such schedule, a registered request that has no signal more than
+   TTL + dl after its registration is one the loop was holding at the watcher's
+   most recent scan, and that scan is less than dl old and came after the
+   request's expiry.  In other words: signal no later than
+   registration + TTL + dl + (time the loop keeps the request at wake-ups: one
+   quota call per pass of the 100 ms loop). *)
+Theorem C06_signal_within_ttl_plus_latency : forall c dl sch r,
+  0 <= ttl c -> 0 <= dl -> wfair false c dl (tinit c) sch = true ->
+  let t := trun false c (tinit c) sch in
+  In r (watch (base t)) -> dones (info (base t) r) = 0 -> regat t r + ttl c + dl < clk t ->
+  wheld t = Some r /\ clk t - dl <= lastwake t /\ expire (info (base t) r) < lastwake t.
+Proof. intros c dl sch r Ht Hd Hf. exact (late_only_if_held c dl sch r Ht Hd Hf). Qed.
+Print Assumptions C06_signal_within_ttl_plus_latency.
+
+(* the hypotheses are satisfiable (TTL 10, latency 1): the request expires at 10,
+   the watcher's scan at 10 is not "after" the expiry, the loop takes the request
+   at 11 and the scan at 11 finds it held; at 12 it is still without a signal —
+   exactly the excepted situation; once the loop has put it back the next
+   wake-up (due at once: the timer stayed on the expired entry) signals it *)
+Example C06_sched_ex :
+  let c := {| qmax := 1; smax := -1; ttl := 10; var := fixed |} in
+  let sch := [TAct (ArriveCheck 1 0 0); TAct (ArriveRegister 1); TAct (ArrivePush 1);
+              TAdv 10; TWake; TAdv 1; TAct TickPop; TWake; TAdv 1] in
+  let t := trun false c (tinit c) sch in
+  wfair false c 1 (tinit c) sch = true /\ In 1 (watch (base t)) /\ dones (info (base t) 1) = 0 /\
+     regat t 1 + ttl c + 1 < clk t /\ wheld t = Some 1 /\ nea t = 10 /\
+     let t' := trun false c t [TAct (TickDecide false); TWake] in
+  dones (info (base t') 1) = 1 /\ clk t' = 12.
+Proof. vm_compute. repeat split; auto. Qed.
+
+(* the three statements as one property of a recalculation variant *)
+Definition C06_sched_full (skip : bool) : Prop :=
+  forall c, 0 <= ttl c -> forall sch,
+  let t := trun skip c (tinit c) sch in
+  (forall r, In r (watch (base t)) ->
+     nea t <= regat t r + ttl c /\ expire (info (base t) r) <= regat t r + ttl c) /\
+     (forall r post, In r (watch (base t)) -> regat t r + ttl c < clk t -> held (base t) <> Some r ->
+     due t = true /\ 1 <= dones (info (base (trun skip c t (TWake :: post))) r)) /\
+     (forall dl r, 0 <= dl -> wfair skip c dl (tinit c) sch = true ->
+     In r (watch (base t)) -> dones (info (base t) r) = 0 -> regat t r + ttl c + dl < clk t ->
+     wheld t = Some r /\ clk t - dl <= lastwake t /\ expire (info (base t) r) < lastwake t).
+
+Theorem C06_sched_full_holds : C06_sched_full false.
+Proof.
+  intros c Ht sch t. split; [|split].
+  - intros r Hw. destruct (C06_timer_never_late c sch r Ht Hw) as (A & B & _). split; assumption.
+  - intros r post Hw Hl Hh. exact (C06_due_wake_signals c sch r post Ht Hw Hl Hh).
+  - intros dl r Hd Hf Hw H0 Hl. exact (C06_signal_within_ttl_plus_latency c dl sch r Ht Hd Hf Hw H0 Hl).
+Qed.
+Print Assumptions C06_sched_full_holds.
+
+(* Seed C06-7 (recalculation skips the entries already past their expiry): the
+   request expires at 10; at 11 the loop holds it (quota call) when the watcher
+   scans; the scan cannot signal it and the recalculation ignores it: the timer
+   goes to 11 + TTL = 21.  The quota refuses, the loop puts the request back, and
+   under a perfectly fair watcher (latency 1) the clock reaches 21 = 2 x TTL + 1
+   with the request still unsignalled and nobody holding it: the third statement
+   fails (the last scan is 10 old, not <= 1). *)
+Theorem C06_sched_full_refuted_skip_past : ~ C06_sched_full true.
+Proof.
+  intros H.
+  set (c := {| qmax := 1; smax := -1; ttl := 10; var := fixed |}).
+  assert (Ht : 0 <= ttl c) by (cbn; lia).
+  specialize (H c Ht [TAct (ArriveCheck 1 0 0); TAct (ArriveRegister 1); TAct (ArrivePush 1);
+                      TAdv 10; TAdv 1; TAct TickPop; TWake; TAct (TickDecide false); TAdv 10]).
+  cbv zeta in H. destruct H as (_ & _ & H).
+  assert (Hd : 0 <= 1) by lia.
+  specialize (H 1 1 Hd).
+  assert (A1 : wfair true c 1 (tinit c)
+                 [TAct (ArriveCheck 1 0 0); TAct (ArriveRegister 1); TAct (ArrivePush 1);
+                  TAdv 10; TAdv 1; TAct TickPop; TWake; TAct (TickDecide false); TAdv 10] = true)
+    by (vm_compute; reflexivity).
+  specialize (H A1). clear A1.
+  match type of H with ?A -> _ => assert (A2 : A) by (vm_compute; auto) end.
+  specialize (H A2). clear A2.
+  match type of H with ?A -> _ => assert (A2 : A) by (vm_compute; reflexivity) end.
+  specialize (H A2). clear A2.
+  match type of H with ?A -> _ => assert (A2 : A) by (vm_compute; reflexivity) end.
+  specialize (H A2). clear A2.
+  destruct H as (_ & K & _). vm_compute in K. apply K. reflexivity.
+Qed.
+Print Assumptions C06_sched_full_refuted_skip_past.
+
+(* the same schedule, statement by statement: after the loop has put the request
+   back, the seeded variant's timer is not due (second statement fails: nothing
+   to wake for until 21) and lies beyond registration + TTL (first statement
+   fails); the code as it is has the timer on the expired entry and signals at
+   the wake-up that follows *)
+Example C06_seed_skip_past_ex :
+  let c := {| qmax := 1; smax := -1; ttl := 10; var := fixed |} in
+  let sch := [TAct (ArriveCheck 1 0 0); TAct (ArriveRegister 1); TAct (ArrivePush 1);
+              TAdv 10; TAdv 1; TAct TickPop; TWake; TAct (TickDecide false)] in
+  let seeded := trun true c (tinit c) sch in
+  let head := trun false c (tinit c) sch in
+  (In 1 (watch (base seeded)) /\ held (base seeded) = None /\ clk seeded = 11 /\
+     nea seeded = 21 /\ due seeded = false /\
+     dones (info (base (trun true c seeded [TWake])) 1) = 0 /\
+     dones (info (base (trun true c seeded [TWake; TAdv 10; TWake])) 1) = 1) /\
+     (nea head = 10 /\ due head = true /\ dones (info (base (trun false c head [TWake])) 1) = 1).
+Proof. vm_compute. repeat split; auto. Qed.
+
+(* The suite "sched" (run_scase): every state its interpreter goes through —
+   untimed state, clock and timer — is the state of a timed schedule of the code
+   as it is (clock steps of the suite are never negative), and a case on which
+   model and implementation agree on every operation is a walk through those
+   states. *)
+Theorem C06_sched_suite_states_are_timed_reachable : forall c hdr groups ops,
+  Forall (fun p => nonneg_adv (fst p)) ops ->
+  let h := send c hdr groups
+             {| sh := {| hs := init; hnow := 0; hgate := true; hpend := false |}; snea := ttl c |} ops in
+  exists sch, let t := trun sched_variant c (tinit c) sch in
+              base t = hs (sh h) /\ clk t = hnow (sh h) /\ nea t = snea h.
+Proof.
+  intros c hdr groups ops Hf. apply (tre_send c hdr groups ops _ Hf). apply tre_init.
+Qed.
+Print Assumptions C06_sched_suite_states_are_timed_reachable.
+
+Theorem C06_sched_suite_walks_send : forall c hdr groups ops1 ops2 h n,
+  srun c hdr groups h n (ops1 ++ ops2) = None ->
+  srun c hdr groups h n ops1 = None /\
+     srun c hdr groups (send c hdr groups h ops1) (n + N.of_nat (length ops1))%N ops2 = None.
+Proof. exact srun_agrees_prefix. Qed.
+Print Assumptions C06_sched_suite_walks_send.
